@@ -22,7 +22,10 @@ def _case(i):
     tier, seed, rundir = _RUN['tier'], _RUN['seed'], _RUN['dir']
     rng = C.rng_for(seed, PID, tier, i)
     res = {'i': i, 'items': [], 'feat': [], 'status': 'ok', 'hist': {}}
-    if i % 12 == 5:
+    if i % 12 == 2:
+        from .c07 import gen_compare_prog
+        name, prog = 'compare_program', gen_compare_prog(rng, nan_bias=rng.random() < 0.3)[0]
+    elif i % 12 == 5:
         name, prog = 'tmpl:stack0_data', gen.tmpl_stack0_data(rng)
     elif i % 12 == 9:
         name, prog = 'tmpl:forward_jump', gen.tmpl_forward_jump(rng)
